@@ -18,7 +18,7 @@ TECHNIQUE = "exhaustive enumeration of single crash points (and Hypothesis-sampl
 RULE = (
     "configuration = (mode, batch size 1..4, 2..7 plates, n_chains/n_chunks 1..2, publication order salt, position of the prospective metadata file); the "
     "uninterrupted run defines the reference log and the number N of injection points (before/after every directory creation, every removed entry, every published "
-    "file); exhaustive part: every single crash point of the listed configurations; generated part: drawn configurations with 1..2 crash points. Non-trivial = "
+    "file); an interruption is a kill (nothing of the script runs afterwards), a KeyboardInterrupt (the script's own handlers run; the script is entered through its main()) or a failing pipeline command; exhaustive part: every single interruption point of the listed configurations (by kill and by KeyboardInterrupt; by a failing command for three configurations in the quick tier, all in the thorough tier); generated part: drawn configurations with 1..2 crash points. Non-trivial = "
     "a crash strictly inside a step (job directory exists, last file not yet published), or in the first step of a new iteration, or a second crash during recovery. "
     "distinct = distinct (configuration, crash points)."
 )
@@ -78,13 +78,23 @@ def n_points(cfg):
     return _n_cache[k]
 
 
+STYLES = ("kill", "interrupt", "fail")
+
+
 def exhaustive(tier):
     cfgs = CONFIGS_QUICK if tier == "quick" else _all_configs()
-    for cfg in cfgs:
+    for ci, cfg in enumerate(cfgs):
         n, _ = n_points(cfg)
         yield {"cfg": cfg, "crashes": []}
         for c in range(n):
             yield {"cfg": cfg, "crashes": [c]}
+        # the same points reached by Ctrl-C (the script's own handlers run) and by a failing pipeline command
+        if True:
+            for c in range(n):
+                yield {"cfg": cfg, "crashes": [c], "style": "interrupt"}
+        if tier != "quick" or ci in (0, 1, 2):
+            for c in range(n):
+                yield {"cfg": cfg, "crashes": [c], "style": "fail"}
     if tier == "thorough":
         # every ordered pair for three small configurations
         for cfg in CONFIGS_QUICK[:3]:
@@ -116,7 +126,7 @@ def _case(draw):
     crashes = [c1]
     if draw(st.booleans()):
         crashes.append(c1 + 1 + draw(st.integers(0, 120)))
-    return {"cfg": cfg, "crashes": crashes, "frac": True}
+    return {"cfg": cfg, "crashes": crashes, "frac": True, "style": draw(st.sampled_from(["kill", "kill", "interrupt", "interrupt", "fail"]))}
 
 
 def strategy(tier):
@@ -134,19 +144,26 @@ def _script():
     return _orch[0]
 
 
-def run_scenario(cfg, crashes):
-    """Run the configuration with crashes at the given global tick indices; returns a result dict."""
-    orch = _script()
+def run_scenario(cfg, crashes, style="kill"):
+    """Run the configuration with interruptions of the given style at the given global tick indices; returns a result dict."""
+    import sys
+
+    _script()  # (fails early with a harness error if the script cannot be loaded)
     root = tmp.fresh("c19")
     os.makedirs(os.path.join(root, "input"))
-    run = osim.Run(root, cfg, crashes)
+    run = osim.Run(root, cfg, crashes, style=style)
     with open(run.input_screen, "w") as f:
         json.dump({"plates": {str(i): "u" for i in range(cfg["plates"])}, "lineage": "input"}, f, sort_keys=True)
-    saved = {n: attach(orch, n) for n in ("subprocess", "os", "shutil")}
-    step = attach(orch, "run_next_retrospective_step" if cfg["mode"] == "retrospective" else "run_next_prospective_step")
-    orch.subprocess = osim.Pipeline(run)
-    orch.os = osim.OsProxy(run)
-    orch.shutil = osim.ShProxy(run)
+    pipeline, os_proxy, sh_proxy = osim.Pipeline(run), osim.OsProxy(run), osim.ShProxy(run)
+
+    def new_process():
+        # every (re)run is a new process: the script is loaded afresh, so no module-level state survives an interruption
+        orch = tree.load_orchestrator()
+        for n in ("subprocess", "os", "shutil"):
+            attach(orch, n)
+        orch.subprocess, orch.os, orch.shutil = pipeline, os_proxy, sh_proxy
+        return orch
+
     extra = ["--n_chains", str(cfg["n_chains"]), "--n_chunks", str(cfg["n_chunks"])]
     problem = None
     invocations_done = 0
@@ -161,15 +178,38 @@ def run_scenario(cfg, crashes):
                 break
             if cfg["mode"] == "prospective" and cfg.get("_ref_keys") is not None and set(map(tuple, cfg["_ref_keys"])) <= set(run.completed):
                 break  # everything the uninterrupted invocations did is done: the operator does not start another batch
+            run.dead = False  # a new process
+            run.interrupted = False
+            orch = new_process()
+            step = attach(orch, "run_next_retrospective_step" if cfg["mode"] == "retrospective" else "run_next_prospective_step")
             try:
-                guard = 0
-                while True:  # the script's main() loop
-                    guard += 1
-                    if guard > 60:
-                        raise RuntimeError("harness: main loop did not stop after 60 steps")
-                    again = step(output_dir=run.outdir, input_screen=run.input_screen, extra_args=list(extra), batch_size=cfg["batch"])
-                    if not again:
-                        break
+                entry = getattr(orch, "main", None)
+                if callable(entry):
+                    # the script's own entry point (its main loop and whatever handlers it installs around it)
+                    argv = sys.argv
+                    sys.argv = ["batchie.py", "--mode", cfg["mode"], "--screen", run.input_screen, "--outdir", run.outdir, "--batch-size", str(cfg["batch"])] + list(extra)
+                    try:
+                        entry()
+                    except SystemExit as e:
+                        if e.code not in (0, None):
+                            if run.interrupted:
+                                continue  # the interrupted process ended with an error status; the operator reruns
+                            problem = ("cannot_continue", "script exits with status %r, naming no directory to remove" % (e.code,))
+                            break
+                    finally:
+                        sys.argv = argv
+                else:
+                    guard = 0
+                    while True:  # the script's main() loop
+                        guard += 1
+                        if guard > 60:
+                            raise RuntimeError("harness: main loop did not stop after 60 steps")
+                        again = step(output_dir=run.outdir, input_screen=run.input_screen, extra_args=list(extra), batch_size=cfg["batch"])
+                        if not again:
+                            break
+                if run.interrupted:
+                    # the script swallowed the interruption and carried on to a normal end: the process ended all the same
+                    run.events.append("interruption swallowed by the script")
                 invocations_done += 1  # the script returned normally
                 if cfg["mode"] == "retrospective":
                     break
@@ -181,7 +221,19 @@ def run_scenario(cfg, crashes):
                     break
             except osim.Crash:
                 continue  # the process died here; the operator simply reruns the script
+            except KeyboardInterrupt:
+                if not run.interrupted:
+                    raise
+                continue  # Ctrl-C: the script's handlers have run, the process ended; the operator reruns
+            except osim.PipelineFailure as e:
+                if not run.interrupted:
+                    problem = ("cannot_continue", "script stops with %r, naming no directory to remove" % (e,))
+                    break
+                continue  # the launched pipeline failed (injected), the script ended with that error; the operator reruns
             except RuntimeError as e:
+                if str(e).startswith("harness:"):
+                    problem = ("does_not_terminate", str(e))
+                    break
                 m = re.search(r"Consider deleting this directory to continue simulation: (.*)$", str(e))
                 if m and os.path.isdir(m.group(1)) and reruns_after_advice < 6:
                     reruns_after_advice += 1
@@ -199,8 +251,6 @@ def run_scenario(cfg, crashes):
                 break
         tree_ = osim.snapshot_tree(run.outdir) if os.path.isdir(run.outdir) else {}
     finally:
-        for n, v in saved.items():
-            setattr(orch, n, v)
         tmp.cleanup(root)
     return {
         "problem": problem,
@@ -249,9 +299,10 @@ def check_case(case):
         absolute_checks(ref, cfg, "uninterrupted run of config %s" % json.dumps(case["cfg"], sort_keys=True))
         return {"nontrivial": False, "labels": ["reference", cfg["mode"]], "key": ["ref", case["cfg"]]}
     cfg["_ref_keys"] = ref_order
-    res = run_scenario(cfg, crashes)
+    style = case.get("style", "kill")
+    res = run_scenario(cfg, crashes, style=style)
     sites = res["crash_sites"]
-    desc = "config %s, crash at %s" % (json.dumps(case["cfg"], sort_keys=True), ["%d:%s" % s for s in sites] or crashes)
+    desc = "config %s, %s at %s" % (json.dumps(case["cfg"], sort_keys=True), {"kill": "process killed", "interrupt": "KeyboardInterrupt", "fail": "pipeline command failed / KeyboardInterrupt"}[style], ["%d:%s" % s for s in sites] or crashes)
     if res["violations"]:
         v = res["violations"][0]
         raise Violation(v[0], "%s (%s)" % (v[1], desc))
@@ -272,11 +323,11 @@ def check_case(case):
     require(res["tree"] == ref["tree"], "final_tree", lambda: "final directory tree differs from the uninterrupted run: only-here %r, missing %r (%s)" % (sorted(set(res["tree"]) - set(ref["tree"]))[:4], sorted(set(ref["tree"]) - set(res["tree"]))[:4], desc))
     inside = any(("publish" in w or "work:" in w) for _, w in sites)
     new_iter = any(re.search(r"mkdir:(before|after):out/iter_\d+$", w) for _, w in sites)
-    labels = [cfg["mode"], "crashes=%d" % len(sites)]
+    labels = [cfg["mode"], "crashes=%d" % len(sites), "style=" + style]
     if inside:
         labels.append("inside-step")
     if new_iter:
         labels.append("new-iteration-dir")
     if not sites:
         labels.append("crash-point-beyond-run")
-    return {"nontrivial": bool(sites) and (inside or new_iter or len(sites) >= 2), "labels": labels, "key": [case["cfg"], [s[0] for s in sites]]}
+    return {"nontrivial": bool(sites) and (inside or new_iter or len(sites) >= 2), "labels": labels, "key": [case["cfg"], [s[0] for s in sites], style]}
